@@ -6,6 +6,11 @@ HERE = os.path.dirname(os.path.abspath(__file__))
 
 # id -> (level, technique, text, note)   (only implemented checks are listed; the rest go to not_applicable)
 CHECKS = {
+    "C09": ("model_checking",
+            "exhaustive enumeration of all operation histories up to depth 3 (quick) / 4 (thorough) over a 22-symbol alphabet on a real Storage x 4 base files x cached/uncached, checked step by step against a map reference model, an independent structural reader and a reload",
+            "Every history of create/update/promise/fulfil/typed read/save/unserialisable-update/repair is executed on the real Storage and Updater; after each step all tracked references are read (resolve and cached typed get incl. Stream::data); after each save: prefix preservation, independent structural validation and value comparison, reload and comparison of written and untouched objects; failing saves must fail cleanly and not wedge the document.",
+            "Trusted: reference model (BTreeMap), the independent reader. Known finding: repeated dictionary updates merge. Histories longer than the depth bound are not covered.",
+            "§5 C09"),
     "C08": ("model_checking",
             "exhaustive enumeration of operator programs (every operator of Table A.1 alone and in every ordered pair) against a reference interpreter, and of all Op sequences up to length 3 (longer over shorthand-sensitive sub-alphabets) through the real serializer and parser",
             "The parser is checked against a harness-side transcription of the operator table including current-point tracking, for all 1- and 2-operator programs; the writer/reader pair is checked on every sequence of <=3 operations of a 62-symbol alphabet (every variant, shorthand triggers) and every sequence of 4..5 (thorough 6) over three sub-alphabets, plus boundary operand values.",
